@@ -50,8 +50,8 @@ def sse2_jobs(tier):
     # ---- per-pixel kernels (head / tail scalar loops) and the 4-pixel vector body, no mask
     for op in SSE2_U:
         for ch in (0, 1, 2, 3):
-            if quick and (ch in (0, 2) or op not in ("OVER", "IN", "ADD", "OUT_REVERSE", "ATOP", "XOR")):
-                continue
+            if quick and (ch in (0, 2) or op not in ("OVER", "IN", "ADD", "OUT_REVERSE", "ATOP", "XOR") or (ch == 1 and op in ("ATOP", "XOR"))):
+                continue  # atop/xor colour channels: 270-330 s each
             js.append(sse2_job("head", op, 0, ch, 1, 1, k=0, timeout=900))
             if not quick:
                 js.append(sse2_job("tail", op, 0, ch, 1, 0, k=0, timeout=900))
@@ -84,13 +84,15 @@ def sse2_jobs(tier):
 def dispatch_jobs(tier):
     js = []
     quick = tier == "quick"
-    cfgs = [(2, 2)] if quick else [(2, 3), (3, 3)]
-    for ni, t in cfgs:
-        js.append(Job("lookup.first_match.ni%d.t%d" % (ni, t), "C02/lookup.c", defines={"VC_NI": ni, "VC_T": t}, unwind=10,
+    cfgs = [(3, 3, c) for c in ((-1, 0, 5) if quick else range(-1, 8))] + ([] if quick else [(2, 3, c) for c in range(-1, 8)])
+    for ni, t, case in cfgs:
+        js.append(Job("lookup.first_match.ni%d.t%d.%s" % (ni, t, "miss" if case < 0 else "hit%d" % case), "C02/lookup.c",
+                      defines={"VC_NI": ni, "VC_T": t, "VC_CASE": case}, unwind=10,
                       cbmc_flags=PC, kind="bounded", extra_sources=RL,
                       bound="%d implementations x %d symbolic table entries (+ optional catch-all + terminator)" % (ni, t),
                       functions=["_pixman_implementation_lookup_composite"],
-                      domain="every request (op, 3 formats, 3 flag words in 2^32 each), every table content, every content of the 8 thread-local cache slots satisfying cache_ok",
+                      domain="every request (op, 3 formats, 3 flag words in 2^32 each), every table content, every content of the 8 thread-local cache slots satisfying cache_ok; case: "
+                             + ("no slot holds this request" if case < 0 else "first slot holding exactly this request is %d" % case) + " (quick tier runs 3 of the 9 cases)",
                       timeout=3600, min_props=7))
     n = 6
     js.append(Job("delegate.combiner", "C02/delegate.c", defines={"VC_COMBINER": None, "VC_CHAIN": n}, unwind=n + 2, cbmc_flags=PC,
@@ -147,8 +149,15 @@ def fastpath_jobs(tier):
             if quick and (fp in (3, 5) or ch in (0, 2) or (fp == 4 and ch == 3)):
                 continue
             w = 3
-            js.append(Job("fast.%s.ch%d" % (fn, ch), "C02/fastpath.c", defines={"VC_FP": fp, "VC_OP": op, "VC_MODE": mode, "VC_CH": ch, "VC_W": w},
-                          unwind=w + 6, cbmc_flags=PC, kind="bounded", bound="width %d, height 1" % w, functions=[fn], extra_sources=RL,
+            offs = [None]
+            if fp == 4:  # memcpy path: fixed x offsets per query (see harness comment)
+                offs = [(0, 1)] if quick else [(0, 1), (2, 1), (1, 2)]
+            for off in offs:
+              d = {"VC_FP": fp, "VC_OP": op, "VC_MODE": mode, "VC_CH": ch, "VC_W": w}
+              if off:
+                  d["VC_SX"], d["VC_DX"] = off
+              js.append(Job("fast.%s%s.ch%d" % (fn, ".sx%d.dx%d" % off if off else "", ch), "C02/fastpath.c", defines=d,
+                          unwind=w + 6, cbmc_flags=PC, kind="bounded", bound="width %d, height 1%s" % (w, ", x offsets fixed" if off else ""), functions=[fn], extra_sources=RL,
                           domain="one row of %d pixels, x offsets of src/mask/dest symbolic in [0,2], ghost pixel symbolic, every pixel value; %s"
                                  % (w, "channel %d" % ch if ch < 4 else "frame"),
                           assumptions=(["fast_composite_over_n_8_8888: _pixman_image_get_solid replaced by a stub returning the symbolic colour"] if fp == 3 else []),
